@@ -404,6 +404,9 @@ RULES = {
     "R44": [(".read()", ".vread_held()"), (".write()", ".vwrite_free()")],
     # R45: `log_files.sort_unstable()` / `log_files.reverse()` on the Vec<PathBuf> of read_dir_related_files -> shims (`Ord for PathBuf` is an oracle order)
     "R45": [("log_files.sort_unstable()", "vsort_unstable(&mut log_files)"), ("log_files.reverse()", "vreverse(&mut log_files)")],
+    # R47: timestamp_from_ts_infix: chrono operations around the two parsers -> shims with oracles
+    "R47": [("e.kind()==ParseErrorKind::NotEnough", "vnot_enough(&e)"), ("Local.from_local_datetime(&dt1).earliest()", "vlocal_earliest(&dt1)"),
+            ("Local.from_local_datetime(&d1.and_hms_opt(10,0,0).unwrap()).earliest()", "vlocal_earliest(&vat_ten(&d1))")],
     # R46: `std::io::Error::other(e)` -> shim `vio_error_other(e)` (an io::Error about which nothing is known)
     "R46": [("std::io::Error::other(", "super::flexi_error::vio_error_other(")],
     # R43 (computed + literal): check_timestamp_format: chrono's delayed formats -> opaque shims that remember how they were made, and
